@@ -926,6 +926,9 @@ class Executor:
         return self.binop(e.op, self.eval(e.left, env), self.eval(e.right, env), e)
 
     def binop(self, op, a, b, node):
+        if isinstance(a, str) and isinstance(op, ast.Mod):
+            self.dropped.add("%-formatting of a string (the text is not modelled)")
+            return "<formatted text>"
         if isinstance(a, Seq) and isinstance(b, Seq) and isinstance(op, ast.Add):
             if a.kind == "array" or b.kind == "array":
                 return self.elementwise(op, a, b, node)
@@ -1014,7 +1017,15 @@ class Executor:
         return last
 
     def e_IfExp(self, e, env):
-        if self.decide(self.truth(self.eval(e.test, env))):
+        t = self.truth(self.eval(e.test, env))
+        if getattr(self, "pure_mode", False) and not isinstance(t, bool):
+            # element expression of a comprehension over a symbolic sequence: no path split, the conditional becomes an if-then-else term
+            a, b = self.eval(e.body, env), self.eval(e.orelse, env)
+            if not (V.is_num(a) and V.is_num(b)):
+                raise OutOfSubset("conditional expression with non-numeric branches inside a symbolic comprehension", e)
+            x, y, _ = V.coerce_pair(V.bool_to_int(a), V.bool_to_int(b))
+            return z3.If(t, x, y)
+        if self.decide(t):
             return self.eval(e.body, env)
         return self.eval(e.orelse, env)
 
@@ -1189,6 +1200,8 @@ class Executor:
         if isinstance(base, Opaque):
             from . import prelude
             return prelude.opaque_item(self, base, idx, e)
+        if isinstance(base, Obj) and self.book.find_method(base.cls, "__getitem__") is not None:
+            return self.call_method(base, "__getitem__", [idx], {}, e)
         raise OutOfSubset("subscript of %r" % (base,), e)
 
     def slice(self, base, sl, env, node):
@@ -1219,7 +1232,9 @@ class Executor:
 
     def e_Dict(self, e, env):
         if e.keys:
-            raise OutOfSubset("non-empty dict literal", e)
+            if all(isinstance(k, ast.Constant) and isinstance(k.value, str) for k in e.keys):
+                return {k.value: self.eval(v, env) for k, v in zip(e.keys, e.values)}     # record with literal string keys
+            raise OutOfSubset("dict literal with computed keys", e)
         return {}
 
     def e_Lambda(self, e, env):
@@ -1237,6 +1252,9 @@ class Executor:
             n = z3.If(n >= 0, n, z3.IntVal(0))
             self.assumed.append("comprehension at L%d over a symbolic range: exact length, unconstrained elements" % e.lineno)
             return Seq("list", None, z3.simplify(n), self.S.array("comp", z3.IntSort(), z3.RealSort()))
+        sym = self.symbolic_comprehension(e, g, it, env)
+        if sym is not None:
+            return sym
         items = self.concrete_items(it, e)
         out = []
         sub = dict(env)
@@ -1247,6 +1265,48 @@ class Executor:
         return Seq("list", out)
 
     e_GeneratorExp = e_ListComp
+
+    def symbolic_comprehension(self, e, g, it, env):
+        """[elt for x in A] / [elt for x, y in zip(A, B)] over sequences of symbolic length, without filter: the result is the sequence
+        defined pointwise by the element expression (an array lambda), of the length of the (shortest) operand.  The element expression
+        must be pure and may not split the path (conditional expressions become if-then-else terms)."""
+        if g.ifs or it is None:
+            return None
+        if isinstance(it, V.ZipV):
+            seqs = it.seqs
+        elif isinstance(it, Seq) and not it.concrete:
+            seqs = None
+        else:
+            return None
+        k = z3.Int("c!%d!%d" % (e.lineno, len(self.trace)))
+        sub = dict(env)
+        if seqs is None:
+            n = V.to_z3(it.len())
+            self.assign(g.target, z3.Select(it.arr, k), sub)
+        else:
+            ss = [x.to_symbolic() for x in seqs]
+            n = V.to_z3(ss[0].len())
+            for x in ss[1:]:
+                m = V.to_z3(x.len())
+                n = z3.If(m < n, m, n)
+            self.assign(g.target, Seq("tuple", [z3.Select(x.arr, k) for x in ss]), sub)
+        n_trace, n_pc = len(self.trace), len(self.pc)
+        saved = getattr(self, "pure_mode", False)
+        self.pure_mode = True
+        self.pc.append(z3.And(k >= 0, k < n))
+        self.pc_tags.append("path")
+        try:
+            body = self.eval(e.elt, sub)
+        finally:
+            self.pure_mode = saved
+            del self.pc[n_pc:]
+            del self.pc_tags[n_pc:]
+        if len(self.trace) != n_trace:
+            raise OutOfSubset("branching inside the element expression of a comprehension over a symbolic sequence", e)
+        if not V.is_num(body):
+            raise OutOfSubset("non-numeric element expression in a comprehension over a symbolic sequence", e)
+        body = V.to_z3(V.bool_to_int(body))
+        return Seq("list", None, z3.simplify(n), z3.Lambda([k], body))
 
     def concrete_items(self, it, node):
         if isinstance(it, Seq) and it.concrete:
